@@ -99,7 +99,7 @@ func Variadic(parts ...string) (joined string, count int) { return "", len(parts
     "api/tagged.go": "//go:build c13tag\n\npackage api\n\ntype OnlyWithTag struct{ TagField int }\n\nfunc TagFunc() int { return 9 }\n",
     "api/sub/sub.go": "package sub\n\ntype Base struct {\n\tID   int\n\tname string\n}\n\nfunc (b Base) Describe() string { return b.name }\n\nfunc Helper(n int) int { return n + len(Base{}.Describe()) + internalHelper() }\n\nfunc internalHelper() int { return 1 }\n",
 }
-CONFIGS = [([], {}, []), (["-seed=AAAAAAAAAAA"], {}, []), (["-tiny"], {}, [])]
+CONFIGS = [([], {}, []), (["-seed=AAECAwQFBgcICQ"], {}, []), (["-tiny"], {}, [])]   # the seed is longer than 8 bytes on purpose: every byte takes part in name hashing
 if tier != "quick":
     CONFIGS += [([], {"GOGARBLE": MODP + "/api"}, []), ([], {}, ["-tags=c13tag"]), (["-literals", "-seed=AAAAAAAAAAA"], {}, []), ([], {"GOGARBLE": MODP + "/api/sub," + MODP}, [])]
 listed_total = 0; checked_total = 0; pkgs_total = 0; reversed_total = 0
